@@ -217,14 +217,15 @@ theorem fence_params_total {marker : Char} {rest : List Char} (hm : marker.utf8S
   · simp [byteLen_replicate marker hm, hm]
   · conv => rhs; rw [hsplit]
     simp [byteLen_replicate marker hm, hm]
+    omega
 
 theorem fenceScan_total (s : BState) (marker : Char) (len n : Nat) (hI : BInv s) :
     ∃ r, fenceScan s marker len n = .ok r := by
   have hlen := hI.lineMax
   fun_induction fenceScan s marker len n with
   | case1 n h => exact ⟨_, rfl⟩
-  | case2 n h e x he => exact absurd_err he (getLine_total hI.table (by omega))
-  | case3 n h e x he _ => exact absurd_err he (lineIndent_total (by omega))
+  | case2 n e h he => exact absurd_err he (getLine_total hI.table (by omega))
+  | case3 n e h he _ => exact absurd_err he (lineIndent_total (by omega))
   | _ => first | assumption | exact ⟨_, rfl⟩
 
 theorem fence_np {s : BState} {silent : Bool} (hI : BInv s) (hl : s.line < s.lineMax) :
@@ -241,17 +242,15 @@ theorem fence_np {s : BState} {silent : Bool} (hI : BInv s) (hl : s.line < s.lin
   · exact absurd_err h (fenceScan_total _ _ _ _ hI)
   · exact absurd_err h (off_total (by omega))
   all_goals (
-    rename_i wscan hscan _ _ _
-    obtain ⟨nextLine, haveEnd⟩ := wscan
+    have hscan := ‹fenceScan _ _ _ _ = _›
     obtain ⟨h1, h2, h3⟩ := fenceScan_spec _ _ _ _ _ _ hscan hl)
-  · exact absurd_err h (getLines_total hI.table (by simp only; omega) (by simp only; omega))
+  · exact absurd_err h (getLines_total hI.table (by omega) (by omega))
   · refine absurd_err h (psub_total ?_)
-    simp only; split <;> omega
+    split <;> omega
   · obtain ⟨hle, rfl⟩ := psub_ok ‹psub _ _ = _›
     refine absurd_err h (getMap_total ?_ ?_)
-    · simp only at hle ⊢; split at hle ⊢ <;> omega
-    · simp only at hle ⊢
-      split at hle ⊢
+    · split at hle ⊢ <;> omega
+    · split at hle ⊢
       · have := h3 ‹_›; omega
       · omega
 
